@@ -54,15 +54,12 @@ Definition env_ok (s : nstate) (ev : nevent) : Prop :=
          (* [X2] if the receiver holds the snapshot's last entry, the snapshot's configuration is the
             one in force at that index in the receiver's log *)
          (e_term me = sq_lastterm q -> sq_config q = config_at s (sq_lastidx q)))
-  | ERestart keep =>
-      (* [X3] the crash did not lose entries the snapshot covers *)
-      st_snapidx s <= keep
   | ETask (TChangeConfig _ c) =>
-      (* [X4] the configuration handed to Bootstrap is a Go value: it survives its own encoding
+      (* [X3] the configuration handed to Bootstrap is a Go value: it survives its own encoding
          (ids distinct, numbers fit their width) *)
       config_of_entry (mkEntry 1 1 entryConfig (enc_config_data (c_nodes c))) = Some (mkConfig (c_nodes c) 1 1)
   | ETask (TTakeSnapshot _ _) =>
-      (* [X5] no snapshot is requested while the committed configuration is newer than what the
+      (* [X4] no snapshot is requested while the committed configuration is newer than what the
          state machine has applied (window after a restart / after a follower stored two
          configurations beyond its commit index) *)
       st_snapbusy s = false -> st_snapidx s < st_fsmidx s -> c_index (st_committed s) <= st_fsmidx s
